@@ -515,6 +515,15 @@ OP(bn_mxp_sim_lot) {
 /* ---- fp / fpx ---- */
 OP(fp_mul) { W(fp_mul(FR[0], F[0], F[1])); out_fp(FR[0]); }
 OP(fp_sqr) { W(fp_sqr(FR[0], F[0])); out_fp(FR[0]); }
+/* shifts of a field element by every kind of amount - a few bits, whole digits, exactly and beyond the width of the
+ * element ("the number of bits to shift" is all the header says) */
+OP(fp_shift) {
+	static const uint_t amounts[] = { 0, 1, 63, 64, 65, RLC_FP_BITS - 1, RLC_FP_BITS, RLC_FP_BITS + 1, RLC_FP_DIGS * RLC_DIG - 1,
+		RLC_FP_DIGS * RLC_DIG, RLC_FP_DIGS * RLC_DIG + 1, (RLC_FP_DIGS + 1) * RLC_DIG, (RLC_FP_DIGS + 1) * RLC_DIG + 7, 1000, 100000 };
+	uint_t b = amounts[(B[6]->dp[0] >> 3) % (sizeof(amounts) / sizeof(amounts[0]))];
+	W(fp_rsh(FR[0], F[0], b)); out_fp(FR[0]);
+	W(fp_lsh(FR[1], F[0], b)); out_fp(FR[1]);
+}
 #define FPINV(N) OP(fp_inv_##N) { if (!fp_is_zero(F[0])) { W(fp_inv_##N(FR[0], F[0])); } out_fp(FR[0]); }
 FPINV(basic) FPINV(binar) FPINV(monty) FPINV(exgcd) FPINV(divst) FPINV(jmpds) FPINV(lower)
 OP(fp_inv_sim) {
@@ -825,11 +834,14 @@ OP(cap_ibe_dec) {
 	sim_sys_free(base_); \
 } while (0)
 #define REC_W ((size_t)(2 + B[6]->dp[0] % 7))
+/* bn_rec_win and bn_rec_reg divide by the width resp. the width minus one: in one instance of sixteen they are handed a
+ * width they are not defined for (0 resp. 1) - an invalid parameter is reported, it is not divided by */
+#define REC_W_INV(BAD) (((B[6]->dp[0] >> 20) % 16 == 0) ? (size_t)(BAD) : REC_W)
 OP(cap_rec_naf) { size_t w = REC_W; CAPREC("bn_rec_naf", ol, W(bn_rec_naf((int8_t *)o, &ol, B[0], w))); }
-OP(cap_rec_win) { size_t w = REC_W; CAPREC("bn_rec_win", ol, W(bn_rec_win(o, &ol, B[0], w))); }
+OP(cap_rec_win) { size_t w = REC_W_INV(0); CAPREC("bn_rec_win", ol, W(bn_rec_win(o, &ol, B[0], w))); }
 OP(cap_rec_slw) { size_t w = REC_W; CAPREC("bn_rec_slw", ol, W(bn_rec_slw(o, &ol, B[0], w))); }
 OP(cap_rec_reg) {
-	size_t w = REC_W, n = RLC_MAX(bn_bits(B[0]), 1) + (size_t)((B[6]->dp[0] >> 8) % 3);	/* "a positive integer": a length of zero is outside the documented domain */
+	size_t w = REC_W_INV(1), n = RLC_MAX(bn_bits(B[0]), 1) + (size_t)((B[6]->dp[0] >> 8) % 3);	/* "a positive integer": a length of zero is outside the documented domain */
 	/* a recoding length shorter than the integer (a quarter of the instances): the integer does not fit, which must be
 	 * reported or recoded short - not copied beyond the scratch storage that was sized from n */
 	if ((B[6]->dp[0] >> 14) % 4 == 0) n = RLC_MAX(n >> (1 + (B[6]->dp[0] >> 16) % 4), 1);
@@ -1162,7 +1174,7 @@ static const op_t ops[] = {
 	E(bn_set_bit_above, 0), E(bn_cap_read_raw, 0), E(bn_gen_prime_small, 0), E(bn_factor, 0), E(bn_rec_naf, 0), E(bn_rec_win, 0), E(bn_rec_slw, 0), E(bn_rec_reg, 0),
 	E(bn_rec_jsf, 0), E(bn_rec_glv, 0), E(bn_read_str, 0), E(bn_write_str, 0), E(bn_read_bin, 0), E(bn_lag, 0),
 	E(bn_evl, 0), E(bn_rand_mod, 0), E(bn_mod_inv_sim, 0), E(bn_mxp_sim_lot, 0),
-	E(fp_mul, 0), E(fp_sqr, 0), E(fp_inv_basic, 0), E(fp_inv_binar, 0), E(fp_inv_monty, 0), E(fp_inv_exgcd, 0),
+	E(fp_mul, 0), E(fp_sqr, 0), E(fp_shift, 0), E(fp_inv_basic, 0), E(fp_inv_binar, 0), E(fp_inv_monty, 0), E(fp_inv_exgcd, 0),
 	E(fp_inv_divst, 0), E(fp_inv_jmpds, 0), E(fp_inv_lower, 0), E(fp_inv_sim, 0), E(fp2_inv_sim, 0), E(fp_exp_basic, 0),
 	E(fp_exp_slide, 0), E(fp_exp_monty, 0), E(fp_srt, 0), E(fp_smb, 0), E(fp_prime_conv, 0), E(fp_prime_back, 0),
 	E(fp_write_str, 0), E(fp_read_str, 0), E(fp_read_bin, 0), E(fp2_inv, 0), E(fp2_srt, 0), E(fp2_mul, 0),
